@@ -37,6 +37,16 @@ def opts(tier):
     o.short_last_p = 0.08
     o.declared_huge_p = 0.01
     o.equal_shapes_p = 0.2
+
+    def scaling(rng, spec, ctype):
+        # scaled channels (a quarter of the worlds): a window of scaled data is the window of the scaled full array, whatever
+        # was read before through the same handle (scalings that work in place, caches of scaled chunks)
+        if rng.random() < 0.25:
+            from .c14 import add_sensor
+            from .c13 import add_scaling
+            add_sensor(rng, spec, ctype, 0.4, only_float=True)
+            add_scaling(rng, spec, ctype, p=0.4)
+    o.scaling = scaling
     return gen.deepen(o, tier)
 
 
@@ -135,6 +145,17 @@ def execute(case):
                     fulls[path] = ops.norm(ops.chan(eager, w, path)[:])
                 except Exception:
                     fulls[path] = None
+        from .. import scalemodel
+        scaled = [p_ for p_, ch in w.chans.items() if case['cut'] is None and ch.type not in (None, 'daqmx')
+                  and scalemodel.channel_scales(w, p_) is not None]
+        if scaled:
+            # the oracle for scaled channels is the scaled full array as a freshly read file returns it (what the formulas
+            # yield is C13's business)
+            res.probe('scaled-channel')
+            fresh = lib.TdmsFile.read(st.source('simstream', 'w.tdms'), raw_timestamps=raw_ts)
+            for p_ in scaled:
+                r_, exc_, _eo = ops.try_op(lambda: ops.norm(ops.chan(fresh, w, p_)[:]))
+                fulls[p_] = r_ if (r_ is not None and r_[0] in ('arr', 'strs', 'rawts')) else None
         for i, op in enumerate(case['ops']):
             full = fulls.get(op['ch'])
             if case['cut'] is None and w.chans[op['ch']].type == 'daqmx':
